@@ -620,7 +620,7 @@ func (vm *Thread) run() {
 			promise := (*Promise)(vm.peek().Pointer())
 
 			verifAsync("awaitsync:before", promise, nil, vm)
-			result, stackTrace, err := promise.AwaitSync()
+			result, stackTrace, err := promise.AwaitSyncCtx(vm.Aborter.Context())
 			verifAsync("awaitsync:after", promise, nil, vm)
 			if !err.IsUndefined() {
 				vm.pop()
